@@ -350,3 +350,11 @@ def replay(ctx, case):
         c, d = pt.comp_mass(case['text'], **kw2)
         print('mass ->', r, ' comp_mass ->', c, d, ' chem_mass(comp)+residual ->',
               pt.chem_mass(c, monoisotopic=kw.get('monoisotopic', True)) + d)
+
+
+SUITE_WORKLOAD = True
+
+
+def install_generic(ctx):
+    """monitor for the repository's own suite: mass/composition agreement on every mass() execution"""
+    install(ctx, State())
